@@ -26,7 +26,7 @@ def nontrivial(feats):
 def gen_programs(rng, n, mode, collide, provide, only):
     for i in range(n):
         small = i < n // 3
-        g = G.Gen(rng, mode, ncomp=rng.randint(1, 2) if small else None, collide=collide, provide=provide if i % 2 else 0.0,
+        g = G.Gen(rng, mode, ncomp=rng.randint(1, 2) if small else None, collide=collide, provide=provide if (i % 2 or provide > 0.5) else 0.0,
                   errors=0.03, depth=2 if small else 3, only=only)
         yield g.program()
 
@@ -69,8 +69,13 @@ def check_batch(chk, progs, tag, key, ms_must_agree):
         pterms.append(G.c_prog(prog))
         meta.append((prog, o))
     if diverge:
-        nd = coq_eval(tag + "d", "prog", "check_mech_diverges", [G.c_prog(p) for p in diverge], shard=4)
+        dterms = [G.c_prog(p) for p in diverge]
+        nd = coq_eval(tag + "d", "prog", "check_mech_diverges", dterms, shard=4)
         chk.dist["%s:impl-RecursionError/M-out-of-fuel" % key] += len(diverge) - len(nd)
+        if nd:
+            uns = {nd[j] for j in coq_eval(tag + "e", "prog", "mech_unsup_p", [dterms[i] for i in nd], shard=4)}
+            chk.dist["%s:outside-modelled-fragment" % key] += len(uns)
+            nd = [i for i in nd if i not in uns]
         for i in nd[:3]:
             chk.disagree("implementation raised RecursionError but M terminates (batch %s)" % key, dict(describe(diverge[i]), program=diverge[i]))
     # ---- one pass in which everything agrees (the common case); separate passes only over what differs
@@ -154,9 +159,12 @@ def check_fragment(chk, progs, tag):
     return len(wf)
 
 
-# (tag, mode, collide, only, M-vs-S must agree)
-BATCHES = [("isod", "isolated", 0.0, 0.12, True), ("djad", "django", 0.0, 0.0, True), ("djao", "django", 0.0, 0.3, False),
-           ("isoc", "isolated", 0.35, 0.12, False), ("djac", "django", 0.35, 0.12, False)]
+# (tag, mode, collide, only, provide, share of n, M-vs-S must agree)
+BATCHES = [("isod", "isolated", 0.0, 0.12, 0.3, 1.0, True), ("djad", "django", 0.0, 0.0, 0.3, 1.0, True),
+           ("djao", "django", 0.0, 0.3, 0.3, 1.0, False),
+           ("isoc", "isolated", 0.35, 0.12, 0.3, 1.0, False), ("djac", "django", 0.35, 0.12, 0.3, 1.0, False),
+           # provide / inject heavy (the _DJC_INJECT__ keys through isolated copies, slot extra_context and snapshots)
+           ("isop", "isolated", 0.0, 0.12, 0.9, 0.5, True), ("djap", "django", 0.0, 0.0, 0.9, 0.5, True)]
 
 
 def run(tier, seed):
@@ -167,14 +175,15 @@ def run(tier, seed):
     gen_constants.generate(["C01M"])
     chk = C.Check("C01M", tier, seed)
     chk.prove()
-    n = 1200 if tier == "thorough" else int(os.environ.get("C01M_N", "200"))
+    n = 1200 if tier == "thorough" else int(os.environ.get("C01M_N", "180"))
     shared, own = corpus_programs()
     check_batch(chk, shared, "corpus", "corpus", True)
     check_batch(chk, own, "corpm", "corpus-C01M", False)
     keep = []
-    for tag, mode, collide, only, must in BATCHES:
-        progs = list(gen_programs(chk.rng, n, mode, collide, 0.3, only))
-        key = "%s/%s%s" % ("collide" if collide else "distinct", mode, "+only" if (only and mode == "django" and not collide) else "")
+    for tag, mode, collide, only, provide, share, must in BATCHES:
+        progs = list(gen_programs(chk.rng, int(n * share), mode, collide, provide, only))
+        key = "%s/%s%s%s" % ("collide" if collide else "distinct", mode, "+only" if (only and mode == "django" and not collide) else "",
+                             "+provide" if provide > 0.5 else "")
         check_batch(chk, progs, tag, key, must)
         if tag in ("isod", "djad"):
             keep.extend(progs[: n // 2])
@@ -192,7 +201,7 @@ def run(tier, seed):
     ]
     return chk.finish(
         rule="genprog programs, %d per batch, small ones first: distinct names isolated / django / django with `only`; colliding names "
-             "(collide=0.35) isolated / django; provide/inject in every second program; plus C01's corpus, C01M's witnesses, and %d programs "
+             "(collide=0.35) isolated / django; provide/inject in every second program, plus two provide-heavy half batches; plus C01's corpus, C01M's witnesses, and %d programs "
              "rewritten into the fragment of the refinement theorem (wf_prog true). implementation-vs-M must agree in EVERY batch; M-vs-S must "
              "agree in the distinct-name isolated, django (no `only`) and fragment batches and is counted elsewhere. Non-trivial = has a fill, "
              "a slot and a nested component. Distinct = distinct program text." % (n, nwf),
